@@ -357,7 +357,7 @@ func genJava(t *rapid.T) JavaCase {
 		add(testClass(t, i))
 	}
 	if rapid.IntRange(0, 2).Draw(t, "withConventionalUnits") > 0 {
-		p := jgen.GenProject(t, jgen.Opts{Bodies: true, Interfaces: true, MaxUnits: 2, MaxMethods: 4})
+		p := jgen.GenProject(t, jgen.Opts{Bodies: true, Interfaces: true, MaxUnits: 4, MaxMethods: 3, DupNames: true})
 		for i, u := range p.Units {
 			dup := false
 			for _, f := range c.Files {
